@@ -18,8 +18,29 @@ def run(ctx):
     H.log(out.strip())
     verdict, vs = ctx.validate("C08Trace.tla", "C08_trace.cfg", trace)
     nviol, known = H.report(ctx, verdict["bad"], lambda i: cases[i], trace)
+
+    # binding self-test: a decode path reported as differing / an undetected corruption must be objected to
+    def _path(k):
+        def f(evs):
+            for e in evs:
+                if e.get("op") == "filter" and e.get("enc") == "ok" and e.get(k) == "eq":
+                    e[k] = "neq"
+                    return evs
+            return None
+        return f
+
+    def _corruption_accepted(evs):
+        for e in evs:
+            if e.get("op") == "filter" and e.get("enc") == "ok" and e.get("corrupt", 0) > 0 and e.get("wneq") == 0 and e.get("wacc") == 0:
+                e["wneq"], e["wother"] = 1, 1       # the writer's decoder returned other data for one altered chunk
+                return evs
+        return None
+    selftest = H.binding_selftest(ctx, "C08Trace.tla", "C08_trace.cfg", trace,
+                                  [("writer-remove-differs", _path("p1")), ("reader-direct-differs", _path("p3")),
+                                   ("corrupted-chunk-decoded-to-other-data", _corruption_accepted)], max_cases=2000, allow_rejected=True)
     st = verdict["stats"]
     cov = {
+        "binding_selftest": selftest,
         "evaluations": len(cases) + st["corruptions"],
         "distinct_nontrivial": len({H.nontrivial_hash(c) for c in cases if len(c["pipe"]) >= 1 and c["payload"] != "empty"}),
         "rule": "cases = every ordered subset of {deflate, shuffle, fletcher32, lzf} (65 pipelines, FilterPipe laws checked by TLC) x deflate levels "
